@@ -5,16 +5,19 @@ Writes /verif/mutation_report.json (or $OUT).  usage: mutation_campaign.py [--te
 import json, os, subprocess, sys, glob, re, time
 VERIF = os.path.dirname(os.path.dirname(os.path.abspath(__file__)))
 EXPECT = {
- "m01": ["C04", "C15", "C09"], "m02": ["C04", "C12", "C06"], "m03": ["C14", "C09"], "m04": ["C09"], "m05": ["C09", "C03"],
+ "m01": ["C15", "C04"], "m02": ["C04", "C12", "C06"], "m03": ["C14", "C09"], "m04": ["C09"], "m05": ["C09", "C03"],
  "m06": ["C15", "C11"], "m07": ["C15", "C05"], "m08": ["C12", "C15", "C09"], "m09": ["C12", "C06"],
  "m10": ["C05", "C01", "C02"], "m11": ["C03", "C02", "C14"], "m12": ["C14"], "m13": ["C13", "C05"], "m14": ["C17", "C05"],
  "m15": ["C16"], "m16": ["C10", "C01"], "m17": ["C03", "C01", "C08"],
+ "m19": ["C07", "C05", "C06"], "m20": ["C08", "C05"], "m21": ["C02", "C01", "C05"], "m22": ["C11"], "m23": ["C16"],
+ "m24": ["C06", "C04"], "m25": ["C10"], "m26": ["C13"], "m27": ["C03", "C17"], "m28": ["C17", "C05"], "m29": ["C14"],
+ "m30": ["C12", "C04"],
 }
 REVERT = {  # fix commit subject fragment -> checks
  "diffusionTermPolar2D": ["C05", "C01", "C06", "C02"], "west-face weight": ["C05", "C01", "C06"], "back-neighbour": ["C05", "C01", "C08"],
  "boundary correction of convectionUpwindTermCylindrical1D": ["C05", "C01"], "divergenceTermSpherical1D": ["C05", "C01", "C12"],
  "convectionTvdRHSSpherical1D": ["C05", "C17"], "convectionTvdRHSSpherical3D": ["C05", "C17", "C01"],
- "upwind-direction argument": ["C05", "C17"], "HCUS": ["C13", "C05"], "documented TypeError": ["C16"],
+ "upwind-direction argument": ["C05", "C17"], "zero upwind direction": ["C05"], "HCUS": ["C13", "C05"], "documented TypeError": ["C16"],
  "component labels": ["C16", "C10"], "constructor arity": ["C16"], "front/back periodic": ["C03", "C08", "C01"],
  "returned by solveExplicitPDE": ["C09", "C12"], "harmonicMean": ["C11"], "faceLocations": ["C15"], "logical operators": ["C14"],
 }
